@@ -65,6 +65,13 @@ def recipes(n, shape, rng):
     add("x.norm(1)", lambda: (x.norm(1), np.abs(X).sum())); add("(x**2).sum()", lambda: ((x ** 2).sum(), (X ** 2).sum()))
     add("Q@x", lambda: (Q @ x, Q @ X)); add("x.dot(Q@x)", lambda: (x.dot(Q @ x), X @ Q @ X))
     add("y.dot(Q@x)", lambda: (y.dot(Q @ x), Y @ Q @ X))
+    # the x.dot(A @ x) -> QuadraticForm rewriting must fire only when both sides are the same vector in the same order
+    add("x.dot(Q@x[::-1])", lambda: (x.dot(Q @ x[::-1]), X @ Q @ X[::-1])); add("x[::-1].dot(Q@x)", lambda: (x[::-1].dot(Q @ x), X[::-1] @ Q @ X))
+    add("x[::-1].dot(Q@x[::-1])", lambda: (x[::-1].dot(Q @ x[::-1]), X[::-1] @ Q @ X[::-1]))
+    if n >= 3:
+        Pm = list(range(1, n)) + [0]
+        add("rot(x).dot(Q@x)", lambda: (VectorVariable._from_variables("x", [x[i] for i in Pm]).dot(Q @ x), X[Pm] @ Q @ X)
+            if hasattr(VectorVariable, "_from_variables") else (x.dot(Q @ x), X @ Q @ X))
     # views
     add("x[0]", lambda: (x[0], X[0])); add("x[-1]", lambda: (x[-1], X[-1]))
     if n >= 2:
